@@ -15,6 +15,7 @@ Classes and functions to read and represent cutplace interface definitions.
 #
 # You should have received a copy of the GNU Lesser General Public License
 # along with this program.  If not, see <http://www.gnu.org/licenses/>.
+import copy
 import glob
 import importlib.machinery
 import importlib.util
@@ -59,6 +60,8 @@ class Cid(object):
         # TODO: Change to tuple(check_name, check).
         self._check_name_to_check_map = {}
         self._location = None
+        # Examples still to be validated while read() is under way; otherwise None.
+        self._examples_to_validate_after_reading = None
         self._check_name_to_class_map = Cid._create_name_to_class_map(checks.AbstractCheck)
         self._field_format_name_to_class_map = Cid._create_name_to_class_map(fields.AbstractFieldFormat)
         if cid_path is not None:
@@ -273,6 +276,7 @@ class Cid(object):
         self._location = errors.Location(cid_path, has_cell=True)
         if self._cid_path is None:
             self._cid_path = cid_path
+        self._examples_to_validate_after_reading = []
         for row in rows:
             if row:
                 row_type = row[0].lower().strip()
@@ -300,6 +304,9 @@ class Cid(object):
         self.data_format.validate()
         if len(self.field_names) == 0:
             raise errors.InterfaceError("fields must be specified", self._location)
+        examples_to_validate, self._examples_to_validate_after_reading = self._examples_to_validate_after_reading, None
+        for field_format, field_example, location_of_example in examples_to_validate:
+            Cid._validate_example(field_format, field_example, location_of_example)
 
     def add_field_format(self, field_format):
         """
@@ -472,14 +479,15 @@ class Cid(object):
 
         # Set and validate example in case there is one.
         if field_example != "":
-            try:
-                field_format.example = field_example
-            except (errors.FieldValueError, errors.RangeValueError) as error:
-                # NOTE: Field formats building on ranges might pass on a RangeValueError.
-                self._location.set_cell(2)
-                raise errors.InterfaceError(
-                    "cannot validate example for field %s: %s" % (_compat.text_repr(field_name), error), self._location
+            self._location.set_cell(2)
+            if self._examples_to_validate_after_reading is not None:
+                # While reading a CID, data format properties declared after the field can still change what the
+                # field accepts, so validate the example when everything has been read.
+                self._examples_to_validate_after_reading.append(
+                    (field_format, field_example, copy.copy(self._location))
                 )
+            else:
+                self._validate_example(field_format, field_example, self._location)
 
         self._location.set_cell(1)
 
@@ -488,6 +496,17 @@ class Cid(object):
         assert field_rule is not None
 
         self.add_field_format(field_format)
+
+    @staticmethod
+    def _validate_example(field_format, field_example, location):
+        try:
+            field_format.example = field_example
+        except (errors.FieldValueError, errors.RangeValueError) as error:
+            # NOTE: Field formats building on ranges might pass on a RangeValueError.
+            raise errors.InterfaceError(
+                "cannot validate example for field %s: %s" % (_compat.text_repr(field_format.field_name), error),
+                location,
+            )
 
     def add_check(self, check_to_add):
         """
